@@ -202,7 +202,8 @@ def stream_case(kind, op, entry, fault, p):
                     "fault=%s entry=%s" % (net.show(fault), entry),
                     "%s: socket %s raising %s inside %s() must be handled as '%s' but was '%s' %s"
                     % (kind, op, net.show(fault), meth[entry], want, got, why),
-                    dict(transport=kind, socket_op=op, method=meth[entry], fault=net.show(fault), expected=want,
+                    dict(case=["stream", kind, op, entry, list(fault)],
+                         transport=kind, socket_op=op, method=meth[entry], fault=net.show(fault), expected=want,
                          observed=got, returned=repr(ret), raised=repr(raised), before=before, after=after,
                          how="connect the transport over doubles, make the next %s() of its socket raise the fault, "
                              "call the method" % op))
@@ -255,7 +256,8 @@ def connect_case(kind, mode, e, p):
         p.violation("%s.connect_ex|%s|%s->%s" % (kind, mode, want, got), "errno=%s" % name,
                     "%s.connect(): connect_ex %s %s must give '%s' but gave '%s'"
                     % (kind, "returning" if mode == "rc" else "raising", name, want, got),
-                    dict(transport=kind, mode=mode, errno=name, expected=want, observed=got, returned=repr(ret),
+                    dict(case=["connect", kind, mode, e],
+                         transport=kind, mode=mode, errno=name, expected=want, observed=got, returned=repr(ret),
                          raised=repr(raised)))
 
 
@@ -307,7 +309,8 @@ def handshake_case(kind, fault, p):
     if got != want:
         p.violation("%s.do_handshake|%s->%s" % (kind, want, got), "fault=%s" % net.show(fault),
                     "%s: do_handshake raising %s must give '%s' but gave '%s'" % (kind, net.show(fault), want, got),
-                    dict(transport=kind, fault=net.show(fault), expected=want, observed=got, returned=repr(ret),
+                    dict(case=["handshake", kind, list(fault)],
+                         transport=kind, fault=net.show(fault), expected=want, observed=got, returned=repr(ret),
                          raised=repr(raised)))
 
 
@@ -367,9 +370,33 @@ def udp_case(op, e, p):
         p.violation("UdpStack.%s|transient->%s" % (op, got), "errno=%s" % name,
                     "UdpStack over SocketUdpNb: %s raising %s (transient destination error) must be retryable, observed '%s'"
                     % (op, name, got),
-                    dict(stack="UdpStack", socket_op=op, errno=name, observed=got, raised=repr(raised),
+                    dict(case=["udp", op, e],
+                         stack="UdpStack", socket_op=op, errno=name, observed=got, raised=repr(raised),
                          how="UdpStack(ha=...) over a datagram double; make the next %s() raise the errno; call "
                              "serviceTxPkts()/serviceReceives() twice" % op))
+
+
+def finish_replay(pid, path, p):
+    """Common tail of --replay: report whether the recorded case still violates the property."""
+    if p.violations:
+        for group, example, what, _ in p.violations:
+            print("VIOLATION property=%s replay=%s" % (pid, path))
+            print("  what: %s" % what)
+            print("  key:  %s|%s" % (group, example))
+        return 1
+    print("%s replay: the recorded case does not violate the property on this tree" % pid)
+    return 0
+
+
+def run_case(c, p):
+    if c[0] == "stream":
+        stream_case(c[1], c[2], c[3], tuple(c[4]), p)
+    elif c[0] == "connect":
+        connect_case(c[1], c[2], c[3], p)
+    elif c[0] == "handshake":
+        handshake_case(c[1], tuple(c[2]), p)
+    else:
+        udp_case(c[1], c[2], p)
 
 
 def cases():
@@ -404,20 +431,25 @@ def work(arg):
         hi = len(all_cases) * (shard + 1) // nshards
         for i in range(lo, hi):     # contiguous blocks: merging in shard order keeps the earliest example per group
             c = all_cases[i]
-            if c[0] == "stream":
-                stream_case(c[1], c[2], c[3], c[4], p)
-            elif c[0] == "connect":
-                connect_case(c[1], c[2], c[3], p)
-            elif c[0] == "handshake":
-                handshake_case(c[1], c[2], p)
-            else:
-                udp_case(c[1], c[2], p)
+            run_case(c, p)
             if i % 997 == 0:
                 p.sample(dict(case=[x if not isinstance(x, tuple) else net.show(x) for x in c]))
     return p
 
 
+def replay(path):
+    import json
+    r = json.load(open(path))["replay"]
+    init()
+    p = core.Part()
+    run_case(r["case"], p)
+    return finish_replay("C25", path, p)
+
+
 def run():
+    import os
+    if os.environ.get("VERIF_REPLAY"):
+        return replay(os.environ["VERIF_REPLAY"])
     net.selftest()
     ck = core.Check("C25", META["level"], META["technique"])
     n = min(core.NPROC, 8)
